@@ -48,10 +48,9 @@ size_t fwrite(const void *ptr, size_t size, size_t count, FILE *stream)
 __CPROVER_requires(stream == W_file && __CPROVER_r_ok(stream, 1))
 __CPROVER_requires(size > 0 && size * count <= VF_WTAPE_MAX - W_pos)
 __CPROVER_requires(__CPROVER_r_ok(ptr, size * count))
-__CPROVER_assigns(W_pos, __CPROVER_object_whole(W_tape))
+__CPROVER_assigns(W_pos, __CPROVER_object_upto(W_tape + W_pos, size * count))
 __CPROVER_ensures(W_pos == __CPROVER_old(W_pos) + size * count)
 __CPROVER_ensures(__CPROVER_return_value == count)
-__CPROVER_ensures(GK < __CPROVER_old(W_pos) ==> W_tape[GK] == __CPROVER_old(W_tape[GK]))
 __CPROVER_ensures(GK2 < size * count ==> W_tape[__CPROVER_old(W_pos) + GK2] == ((const uint8_t *)ptr)[GK2])
 __CPROVER_ensures(0 < size * count ==> W_tape[__CPROVER_old(W_pos) + 0] == ((const uint8_t *)ptr)[0])
 __CPROVER_ensures(1 < size * count ==> W_tape[__CPROVER_old(W_pos) + 1] == ((const uint8_t *)ptr)[1])
@@ -70,7 +69,7 @@ int putc(int c, FILE *stream)
 __CPROVER_requires(stream == W_file && __CPROVER_r_ok(stream, 1))
 __CPROVER_requires(W_pos < VF_WTAPE_MAX)
 __CPROVER_assigns(W_pos, W_tape[W_pos])
-__CPROVER_ensures(W_pos == __CPROVER_old(W_pos) + 1 && W_tape[__CPROVER_old(W_pos)] == (uint8_t)c)
-__CPROVER_ensures(__CPROVER_return_value == (int)(uint8_t)c)
+__CPROVER_ensures(W_pos == __CPROVER_old(W_pos) + 1 && W_tape[__CPROVER_old(W_pos)] == (c & 0xff))
+__CPROVER_ensures(__CPROVER_return_value == (c & 0xff))
 ;
 #endif
